@@ -27,6 +27,14 @@ func boolToInt(b bool) int {
 }
 
 func merge(kind Kind, key string, a, b []string) []string {
+	switch kind {
+	case FILE, VARIABLE, MOUNT:
+	default:
+		if len(a) == 0 || len(b) == 0 {
+			// No value means all of them: listing some would narrow the rule
+			return nil
+		}
+	}
 	a = append(a, b...)
 	switch kind {
 	case FILE:
